@@ -7,8 +7,10 @@
 //!   wit <wk> <hash> <key> <dp|~> <magic|~>      derive <root> <n> <idx>…      bip39 <entropy> <password>
 //!   x128 <key>                       enc3 <pw> <salt> <nonce> <data>   dec3 <pw> <container>
 //!   (type tags tk / formats fmt / witness kinds wk: see coq/Crypto/Obs.v; texts are the hex of their UTF-8 bytes)
-//! A table entry `prim/arg/…=result` is one call of an EXTERNAL primitive (cryptoxide, ed25519-bip32, bech32) made through
-//! the cfg(csl_verif) pass-throughs of verif_hooks_c12; the model's primitives are instantiated by these tables.
+//! A table entry `prim/arg/…=result` is one call of an EXTERNAL cryptographic primitive (cryptoxide, ed25519-bip32) made through
+//! the cfg(csl_verif) pass-throughs of verif_hooks_c12; the model's cryptographic primitives are instantiated by these tables.
+//! bech32 is NOT tabulated: the model computes the text itself (Coq model of the bech32 crate) and it is compared exactly; the
+//! bech32 pass-throughs are used only to craft inputs (texts under other HRPs, bad padding, …).
 //! Observation: one token per field, `ok:<hex>` | `err` | `panic`; a panic anywhere in a case gives the single token `panic`.
 use cardano_serialization_lib::chain_crypto as cc;
 use cardano_serialization_lib::chain_crypto::bech32::Bech32;
@@ -185,7 +187,7 @@ fn exec(t: &[&str]) -> String {
                 let k = match sk_of(wk, &b(key)) { Ok(k) => k, Err(_) => return "err".into() };
                 let w = make_vkey_witness(&h, &k);
                 let (vk, sg) = (w.vkey().public_key(), w.signature());
-                [ok(&vk.as_bytes()), ok(&sg.to_bytes()), okb(vk.verify(&hb, &sg))].join(" ")
+                [ok(&vk.as_bytes()), ok(&sg.to_bytes()), okb(vk.verify(&hb, &sg)), ok(&w.to_bytes())].join(" ")
             } else {
                 let addr = ByronAddress::from_bytes(byron_addr_bytes(&[0x5au8; 28], &dp, magic)).expect("byron address built by the harness");
                 let w = if wk == 2 {
@@ -196,7 +198,7 @@ fn exec(t: &[&str]) -> String {
                     make_daedalus_bootstrap_witness(&h, &addr, &k)
                 };
                 let (vk, sg) = (w.vkey().public_key(), w.signature());
-                [ok(&vk.as_bytes()), ok(&sg.to_bytes()), okb(vk.verify(&hb, &sg)), ok(&w.chain_code()), ok(&w.attributes())].join(" ")
+                [ok(&vk.as_bytes()), ok(&sg.to_bytes()), okb(vk.verify(&hb, &sg)), ok(&w.chain_code()), ok(&w.attributes()), ok(&w.to_bytes())].join(" ")
             }
         }
         ["derive", root, _n, path @ ..] => {
@@ -303,22 +305,6 @@ impl Tab {
     fn aead_dec(&mut self, k: &[u8], n: &[u8], c: &[u8], t: &[u8]) -> Option<Vec<u8>> {
         let r = prim::aead_dec(k, n, c, t); self.put(format!("aead_dec/{}/{}/{}/{}", hx(k), hx(n), hx(c), hx(t)), Tab::opt(&r)); r
     }
-    fn b32_enc(&mut self, hrp: &str, bytes: &[u8]) -> Option<String> {
-        let u5 = prim::b32_to_base32(bytes); self.put(format!("b32_to_base32/{}", hx(bytes)), hx(&u5));
-        let s = prim::b32_encode(hrp, &u5);
-        self.put(format!("b32_encode/{}/{}", hx(hrp.as_bytes()), hx(&u5)), match &s { Some(x) => hx(x.as_bytes()), None => "~".into() });
-        s
-    }
-    fn b32_dec(&mut self, s: &str) {
-        let r = prim::b32_decode(s);
-        match &r {
-            None => self.put(format!("b32_decode/{}", hx(s.as_bytes())), "~".into()),
-            Some((h, d)) => {
-                self.put(format!("b32_decode/{}", hx(s.as_bytes())), format!("{},{}", hx(h.as_bytes()), hx(d)));
-                let b = prim::b32_from_base32(d); self.put(format!("b32_from_base32/{}", hx(d)), Tab::opt(&b));
-            }
-        }
-    }
 }
 
 const HRPS: [&str; 7] = ["ed25519_sk", "ed25519e_sk", "ed25519_pk", "ed25519_sig", "xprv", "xpub", "legacy_xprv"];
@@ -339,11 +325,7 @@ fn tabulate_into(tab: &mut Tab, t: &[&str]) {
             if p.as_ref().map(|x| x.len()) != Some(64) { return; }
             for s in path.iter() { p = match p { Some(q) => tab.xpub_derive(&q, s.parse().unwrap()), None => None }; }
         }
-        ["enc", tk, bs] => {
-            let tk: usize = tk.parse().unwrap();
-            if let Some(s) = tab.b32_enc(HRPS[tk.min(6)], &b(bs)) { tab.b32_dec(&s); }
-        }
-        ["dec", _tk, fmt, input] => { if *fmt == "2" { if let Some(s) = text(&b(input)) { tab.b32_dec(&s); } } }
+        // enc / dec need no table: hex and bech32 are modelled concretely (bech32: the Coq model of the crate)
         ["sign", tk, key, msg, msg2, key2] => {
             let (k, m, m2, k2) = (b(key), b(msg), b(msg2), b(key2));
             let (pk, sg, pk2) = if *tk == "0" { (tab.ed_keypair_pk(&k), tab.ed_sign(&k, &m), tab.ed_keypair_pk(&k2)) }
